@@ -277,6 +277,9 @@ fn scenario_body(scn: &Scn) {
     let (tx, _rx) = crossbeam_channel::unbounded();
     let mut config = Config::default();
     config.protocol.max_response_peers = 1000;
+    // totals are only stored into the statistics object when statistics are active
+    config.statistics.interval = 5;
+    config.statistics.write_html_to_file = true;
     let mut list = aquatic_common::access_list::AccessList::default();
     if !scn.forbid.is_empty() {
         config.access_list.mode = aquatic_common::access_list::AccessListMode::Deny;
